@@ -30,6 +30,7 @@ acts in order; the injection decides per write whether it happens, fails with a 
 Core-only: this file is linked into the `oracle` driver.
 -/
 import OnosVerif.Path.Model
+import OnosVerif.Generated.Facts
 
 namespace OnosVerif.V3
 open OnosVerif.Path (strLt getParentPath)
@@ -503,19 +504,40 @@ inductive AnsClass
   | ok | retry | superseded | fail (f : Fail)
 deriving DecidableEq, Repr
 
-/-- the two nested switches of `applyChange` / `applyRollback` on `errorCode(err)`. -/
-def classify : DevAns → AnsClass
-  | .ok => .ok
-  | .unavailable | .canceled | .deadlineExceeded => .retry
-  | .permissionDenied => .superseded
-  | .unknown => .fail .unknown
-  | .notFound => .fail .notFound
-  | .alreadyExists => .fail .alreadyExists
-  | .unauthenticated => .fail .unauthorized
-  | .failedPrecondition => .fail .conflict
-  | .invalidArgument => .fail .invalid
-  | .unimplemented => .fail .notSupported
-  | .internal => .fail .internal
+/-- the Go name of the gRPC code (`codes.X`) -/
+def DevAns.codeName : DevAns → String
+  | .ok => "OK" | .unknown => "Unknown" | .canceled => "Canceled" | .notFound => "NotFound"
+  | .alreadyExists => "AlreadyExists" | .unauthenticated => "Unauthenticated"
+  | .permissionDenied => "PermissionDenied" | .failedPrecondition => "FailedPrecondition"
+  | .invalidArgument => "InvalidArgument" | .unavailable => "Unavailable"
+  | .unimplemented => "Unimplemented" | .deadlineExceeded => "DeadlineExceeded" | .internal => "Internal"
+
+/-- `configapi.Failure_X` by name (the zero value is UNKNOWN) -/
+def failOfName : String → Fail
+  | "CANCELED" => .canceled | "NOT_FOUND" => .notFound | "ALREADY_EXISTS" => .alreadyExists
+  | "UNAUTHORIZED" => .unauthorized | "FORBIDDEN" => .forbidden | "CONFLICT" => .conflict
+  | "INVALID" => .invalid | "UNAVAILABLE" => .unavailable | "NOT_SUPPORTED" => .notSupported
+  | "TIMEOUT" => .timeout | "INTERNAL" => .internal | _ => .unknown
+
+def lookupS (t : List (String × String)) (k : String) : Option String :=
+  (t.find? (·.1 == k)).map (·.2)
+
+/-- the two nested switches on `errorCode(err)`, driven by the tables the translator regenerates
+    from the current source (`OnosVerif.Generated.v3ApplyOuter` / `v3ApplyFailure` and the
+    `v3Rollback…` pair): a code of the outer table makes the invocation return the error (retry) or
+    nil (superseded); every other code fails the phase with the failure type of the inner table. -/
+def classifyWith (outer inner : List (String × String)) (ans : DevAns) : AnsClass :=
+  if ans = .ok then .ok else
+  match lookupS outer ans.codeName with
+  | some "retry" => .retry
+  | some _ => .superseded
+  | none => .fail (((lookupS inner ans.codeName).map failOfName).getD .unknown)
+
+def classify : DevAns → AnsClass :=
+  classifyWith OnosVerif.Generated.v3ApplyOuter OnosVerif.Generated.v3ApplyFailure
+
+def classifyRb : DevAns → AnsClass :=
+  classifyWith OnosVerif.Generated.v3RollbackOuter OnosVerif.Generated.v3RollbackFailure
 
 inductive Panic
   | nilMap | nilPtr
@@ -629,10 +651,10 @@ def commitChange (s : Sys) (i : Nat) (t : Tx) (v : View) (verdict : Verdict) : O
 /-- the tail shared by the IN_PROGRESS branches of `applyChange` and `applyRollback` after
     `applyValues`: `okActs` on success, `failActs f` on a rejected request.  `sendable` = the
     SetRequest could be built (every path parses). -/
-def afterSend (s : Sys) (c : Cfg) (values : Values) (ans : DevAns) (i : Nat)
+def afterSend (s : Sys) (c : Cfg) (values : Values) (cls : AnsClass) (i : Nat)
     (okActs : List Act) (failActs : Fail → List Act) : Plan :=
   if !canSend s c || !sendable values then {} else
-  match classify ans with
+  match cls with
   | .ok => { send := some values, acts := okActs, requeue := some (i + 1) }
   | .retry => { send := some values, err := true }
   | .superseded => { send := some values }
@@ -657,7 +679,7 @@ def applyChange (s : Sys) (i : Nat) (t : Tx) (v : View) (ans : DevAns) : Outcome
       .plan { acts := [.tApplyDone i], requeue := some (i + 1) }
     else
       let values := addDeleteChildren i t.values v.cVals
-      .plan (afterSend s c values ans i
+      .plan (afterSend s c values (classify ans) i
         [.aApply i t.cord values, .tApplyDone i]
         (fun f => [.tApplyFailed i f, .aFailed i t.cord]))
   | .aborted | .failed =>
@@ -721,7 +743,7 @@ def applyRollback (s : Sys) (i : Nat) (t : Tx) (v : View) (ans : DevAns) : Outco
       .plan { acts := [.tRbApplyDone i], requeue := some (i + 1) }
     else
       let values := addDeleteChildren i t.rvals v.cVals
-      .plan (afterSend s c values ans i
+      .plan (afterSend s c values (classifyRb ans) i
         [.aRbApply i t.rord t.ridx values, .tRbApplyDone i]
         (fun f => [.aRbFailed i t.rord, .tRbApplyFailed i f]))
   | _, _ => .fall
